@@ -11,7 +11,7 @@ CHECKS = {
  "C01": "Every API operation is executed symbolically; on every feasible path z3 refutes 'a written frame violates magic / LE16 total length / terminator / signature' for all device ids, keys, sessions, clock values, replies and arguments in the bounds.",
  "C02": "The command frame of each operation is compared byte-for-byte with an independent reference layout for every argument value in the bounds; arguments the statement rejects must raise before any command frame.",
  "C03": "Ordered pairs (thorough: triples) of operations on one connection and two instances interleaved at every await point are executed with fresh symbolic sessions, clock reads, ids and keys; login-first, own-session, own-timestamp, own-id are refuted per path; a write-set monitor shows that no state outlives an operation.",
- "C04": "sign_packet_with_crc_key is executed on every hex text of 0..24 (quick) / 0..160 (thorough) bytes in both letter cases against a bit-precise CRC-16 reference; free text of 1..6 characters that is not valid hex must raise; byte strings of 31..4097 (thorough: every length to 1100, selected lengths to 4225) bytes with the CRC byte step uninterpreted.",
+ "C04": "sign_packet_with_crc_key is executed on every hex text of 0..24 (quick) / 0..160 (thorough) bytes in both letter cases against a bit-precise CRC-16 reference; free text of 1..6 characters that is not valid hex must raise; byte strings of 31..4097 (thorough: every length up to 4225) bytes with the CRC byte step uninterpreted.",
  "C05": "_parse_device_from_datagram is executed with every byte of the datagram symbolic under the well-formedness predicate; each delivered field is compared with an independent reference decoder, per device type, also after an earlier broadcast of the same model with free identity bytes.",
  "C06": "The datagram is 2 free bytes plus a tail of symbolic length (0..65505): one query per path covers every length and content; the three accepted lengths are re-run with all bytes free for the unknown-model clause; the same foreign datagram arriving 128 (1024) times is ignored every time.",
  "C07": "SwitcherBridge.start and the per-port protocols run under a stub event loop; sequences of datagram classes (valid of each family, foreign, short, long, unknown model, undecodable) with every byte symbolic under its class predicate and one symbolic 'callback raises' bit per invocation; per-port delivery log compared with the reference decode; runs of identical failing datagrams or failing callbacks followed by a valid broadcast.",
